@@ -145,7 +145,10 @@ class _Finder(importlib.abc.MetaPathFinder):
 class _RefLoader(importlib.machinery.SourceFileLoader):
     def get_code(self, fullname):
         path = self.get_filename(fullname)
-        return compile(self.get_data(path), path, "exec", dont_inherit=True)
+        data = self.get_data(path)
+        # the command-line tools import the package absolutely: keep the pristine copy self-contained
+        data = data.replace(b"\nimport pvl\n", b"\nimport pvl_ref as pvl\n")
+        return compile(data, path, "exec", dont_inherit=True)
 
 
 class _RefFinder(importlib.abc.MetaPathFinder):
